@@ -814,7 +814,17 @@ func (r *hRun) doRead(what string, id int) {
 		case "nest":
 			nk := r.pkey(nest)
 			nwant, nexists := r.db[nest]
-			if !r.dirty[nk] {
+			if b.getFailed[nk] {
+				// the nested row's key could not be read (it holds a value of another
+				// type): that failure is handed to the nested caller, not the database
+				r.classes["nested-read-get-fault"] = true
+				if !isCacheErr(r.nestErr) {
+					r.failf("%s (nested read of row %d inside the callback): GET %s failed with a redis error, the nested read returned (%+v, %v) instead of that error", what, nest, nk, r.nestRow, r.nestErr)
+				}
+				if nest != id && r.priCalls[nest] != 0 {
+					r.failf("%s (nested read of row %d inside the callback): GET %s failed with a redis error and the database was queried", what, nest, nk)
+				}
+			} else if !r.dirty[nk] {
 				r.checkRow(what+fmt.Sprintf(" (nested read of row %d inside the callback)", nest), r.nestRow, r.nestErr, nwant, nexists)
 			}
 		}
